@@ -92,6 +92,9 @@ def slicesOf (kind : String) (tag : String) : List String :=
 
 /-- the model rejected, the implementation accepted: attribute by the guard that fired in the model -/
 def slicesOfModelErr (kind : String) (e : Err) : List String :=
+  -- collateral housekeeping between users belongs to no property's slice (cw20 allowance records are
+  -- not observable when they hold zero)
+  if kind == "tapprove" || kind == "tdecrease" then [] else
   match e with
   | .unauthorized => ["C09"]
   | .guard 54 | .guard 52 | .guard 53 | .guard 10 => ["C14"]
@@ -111,6 +114,7 @@ def slicesOfModelErr (kind : String) (e : Err) : List String :=
 /-- the model accepted, the implementation rejected: availability-type clauses -/
 def slicesOfImplErr (kind : String) : List String :=
   match kind with
+  | "tapprove" | "tdecrease" => []
   | "liq" => ["C07", "C14"]
   | "payfunding" => ["C11", "C14"]
   | "open" | "close" => ["C16", "C15"]
@@ -129,20 +133,20 @@ def handleWCfg (acc : Acc) (kv : KV) (_line : String) : Acc × WHist :=
 def handleWTx (acc : Acc) (h : WHist) (kv : KV) (line : String) : Acc × WHist :=
   (acc, { h with pending := some (kv, line) })
 
-def handleWObs (acc : Acc) (h : WHist) (kv : KV) (line : String) : Acc × WHist :=
-  if !h.alive then (acc, h) else
+def handleWObs (acc : Acc) (h : WHist) (kv : KV) (_line : String) : Acc × WHist × Option Step :=
+  if !h.alive then (acc, h, none) else
   let obs := parseObs kv
   match h.pending with
   | none =>
     -- initial observation
-    (acc, { h with last := obs, seen := obs.w.vamms.map (fun p => (p.1, p.2.st)) })
+    (acc, { h with last := obs, seen := obs.w.vamms.map (fun p => (p.1, p.2.st)) }, none)
   | some (tkv, tline) =>
     let acc := { acc with checked := acc.checked + 1 }
     let kind := txKind tkv
     let next : WHist := { h with last := obs, pending := none,
                                  seen := if h.seen.length < 200 then obs.w.vamms.map (fun p => (p.1, p.2.st)) ++ h.seen else h.seen }
     match parseTx tkv with
-    | none => (acc.report "DISAGREE" "C08" s!"unparsed-tx:{kind}" tline, next)
+    | none => (acc.report "DISAGREE" "C08" s!"unparsed-tx:{kind}" tline, next, none)
     | some tx =>
       let env : Env := ⟨tkv.nat "height", tkv.nat "time"⟩
       let sender := tkv.nat "snd"
@@ -151,6 +155,15 @@ def handleWObs (acc : Acc) (h : WHist) (kv : KV) (line : String) : Acc × WHist 
       let step : Step :=
         { pre := h.last.w, post := obs.w, env := env, sender := sender, funds := funds, tx := tx, ok := ok,
           xfers := parseXfers (tkv.str "xf"), residue := obs.tmp || obs.sent || obs.liq }
+      -- fault-injected execution (harness `fault` mode): only C08 is meaningful — the injected
+      -- failure must fail the whole call and leave every contract's storage and every balance as before
+      let faulted := match tkv.get? "fault" with | some f => f != "none" && tkv.bool "fired" | none => false
+      if faulted then
+        let acc := (C08.check step).foldl (fun a tag => a.report "SPECFAIL" "C08" s!"{kind}:fault{tkv.str "fault"}:{tag}" tline) acc
+        let acc := if ok then acc.report "SPECFAIL" "C08" s!"{kind}:injected-failure-swallowed(sub-message {tkv.str "fault"})" tline else acc
+        -- the history continues from the unchanged state
+        (acc, { next with seen := h.seen }, some step)
+      else
       -- 1. specification on the implementation's observations
       -- C07 failures carry the class of the implementation's error (diagnostic, used by known-finding signatures)
       let errClass : String :=
@@ -181,7 +194,7 @@ def handleWObs (acc : Acc) (h : WHist) (kv : KV) (line : String) : Acc × WHist 
           if ok then
             (slicesOfModelErr kind e).foldl (fun a p => a.report "DISAGREE" p s!"{kind}:accept(model-err:{errTag e},impl-ok)" tline) acc
           else acc
-      (acc, next)
+      (acc, next, some step)
 
 /-- `QRY` lines: the engine's own query answers against the model's query functions on the same state -/
 def handleWQry (acc : Acc) (h : WHist) (kv : KV) (line : String) : Acc :=
@@ -218,5 +231,35 @@ def handleWQry (acc : Acc) (h : WHist) (kv : KV) (line : String) : Acc :=
   let cum := (Engine.latestCum w.engine v).toInt
   let icum : Int := (if kv.bool "cpfn" then -1 else 1) * (kv.nat "cpfv" : Int)
   if cum == icum then acc else acc.report "DISAGREE" "C11" "query:cumulative-premium-fraction" line
+
+/-! ### C13: native vs cw20 twins (harness `twin` mode) -/
+
+/-- per-account balance change of a step -/
+def balDelta (s : Step) (a : Nat) : Int := Spec.W.bal s.post a - Spec.W.bal s.pre a
+
+def sortPos (l : List Engine.Position) : List Engine.Position :=
+  l.mergeSort (fun a b => a.vamm < b.vamm || (a.vamm == b.vamm && a.trader ≤ b.trader))
+
+def posView (w : World) := (sortPos w.engine.positions).map (fun p => (p.vamm, p.trader, p.direction, p.size.toInt, p.margin, p.notional, p.chk.toInt, p.block))
+def vammView (w : World) := w.vamms.map (fun p => (p.1, p.2.st.quote, p.2.st.base, p.2.st.net.toInt, p.2.st.isOpen, p.2.st.nextFunding, p.2.st.fundingRate.toInt, p.2.st.snaps))
+
+/-- the two deployments are in the same state (collateral kind aside) -/
+def twinSynced (a b : World) : Bool :=
+  posView a == posView b && vammView a == vammView b && a.engine.st == b.engine.st
+  && (Spec.W.accounts a).all (fun x => Spec.W.bal a x == Spec.W.bal b x)
+
+/-- C13 on one lock-step operation: `a` ran on the cw20 deployment, `b` on the native one with
+    exactly what `a` pulled from the caller attached -/
+def twinCheck (a b : Step) : List String :=
+  if !twinSynced a.pre b.pre then [] else
+  -- not comparable: the native caller cannot even attach the amount (the cw20 run paid it out of what it had just received)
+  if Spec.W.bal b.pre b.sender < (b.funds.amount : Int) then [] else
+  Spec.W.chk (a.ok == b.ok) "accepted-in-one-deployment-only" ++
+  (if a.ok && b.ok then
+    Spec.W.chk (posView a.post == posView b.post) "positions-differ" ++
+    Spec.W.chk (vammView a.post == vammView b.post) "vamm-state-differs" ++
+    Spec.W.chk (a.post.engine.st == b.post.engine.st) "engine-state-differs" ++
+    Spec.W.chk ((Spec.W.accounts a.post).all (fun x => balDelta a x == balDelta b x)) "balance-deltas-differ"
+   else [])
 
 end Driver
